@@ -44,7 +44,8 @@ CbVecs == { <<"id">>, <<"AtoZ">>, <<"Bswap">>, <<"Achild">>, <<"Zleaf">>, <<"Bli
             <<"AtoZ", "Zleaf">>, <<"Bswap", "Achild">>, <<"Achild", "AtoZ">>, <<"id", "Bswap">> }
 
 CbSeq == << <<"id">>, <<"AtoZ">>, <<"Bswap">>, <<"Achild">>, <<"Zleaf">>, <<"Blist">>,
-            <<"AtoZ", "Zleaf">>, <<"Bswap", "Achild">>, <<"Achild", "AtoZ">>, <<"id", "Bswap">> >>
+            <<"AtoZ", "Zleaf">>, <<"Bswap", "Achild">>, <<"Achild", "AtoZ">>, <<"id", "Bswap">>,
+            <<"Acopy">>, <<"Acopy", "Bswap">> >>
 
 Step == /\ ~done
         /\ done' = TRUE
